@@ -61,9 +61,9 @@ def lnot(c):
 
 class SymInt:
     _sym = True
-    __slots__ = ('t', 'lo', 'hi', 'w', 'signed')
+    __slots__ = ('t', 'lo', 'hi', 'w', 'signed', 'aff')
     def __init__(self, t, lo, hi):
-        self.t = t; self.lo = lo; self.hi = hi
+        self.t = t; self.lo = lo; self.hi = hi; self.aff = None
         self.w, self.signed = bits_for(lo, hi)
         assert t.size() == self.w, (t.size(), self.w, lo, hi)
     def __repr__(self): return 'SymInt[%d..%d]' % (self.lo, self.hi) if self.hi < 1 << 64 else 'SymInt[%d bits]' % self.w
@@ -85,7 +85,27 @@ class SymInt:
 def fresh(name, lo, hi):
     if lo == hi: return lo
     w, s = bits_for(lo, hi)
-    return SymInt(z3.BitVec(name, w), lo, hi)
+    r = SymInt(z3.BitVec(name, w), lo, hi)
+    r.aff = (name, 1, 0)
+    return r
+
+def _aff(x):
+    """exact affine form (root symbol, coefficient, constant) of a lifted value, when known"""
+    if x.lo == x.hi: return (None, 0, x.lo)
+    return x.aff
+
+def _aff_combine(a, b, sign):
+    fa, fb = _aff(a), _aff(b)
+    if fa is None or fb is None: return None
+    if fa[0] is not None and fb[0] is not None and fa[0] != fb[0]: return None
+    root = fa[0] if fa[0] is not None else fb[0]
+    return (root, fa[1] + sign * fb[1], fa[2] + sign * fb[2])
+
+def _with_aff(r, f):
+    if f is None: return r
+    if f[1] == 0: return f[2]             # the symbolic parts cancel exactly: a constant
+    if isinstance(r, SymInt): r.aff = f
+    return r
 
 def lift(x):
     if isinstance(x, SymInt): return x
@@ -101,11 +121,117 @@ def ext(a, w):
     assert w > a.w, (w, a.w)
     return z3.SignExt(w - a.w, a.t) if a.signed else z3.ZeroExt(w - a.w, a.t)
 
+def extract(hi, lo, t):
+    """Extract(hi,lo,t) composed with the extraction / extension / concatenation t is built from"""
+    n = t.size()
+    if lo == 0 and hi == n - 1: return t
+    d = t.decl().kind()
+    if d == z3.Z3_OP_EXTRACT:
+        h2, l2 = t.params()
+        return extract(hi + l2, lo + l2, t.arg(0))
+    if d in (z3.Z3_OP_ZERO_EXT, z3.Z3_OP_SIGN_EXT):
+        u = t.arg(0)
+        if hi < u.size(): return extract(hi, lo, u)
+        if d == z3.Z3_OP_ZERO_EXT and lo >= u.size(): return z3.BitVecVal(0, hi - lo + 1)
+    if d == z3.Z3_OP_CONCAT:
+        off = 0
+        for c in reversed(t.children()):
+            if lo >= off and hi < off + c.size(): return extract(hi - off, lo - off, c)
+            off += c.size()
+    if z3.is_bv_value(t):
+        return z3.BitVecVal((t.as_long() >> lo) & ((1 << (hi - lo + 1)) - 1), hi - lo + 1)
+    return z3.Extract(hi, lo, t)
+
+_LOWOPS = None
+_low_cache = {}
+def low(t, k):
+    """the k low bits of bit-vector term t, with the extraction pushed through the operators whose low
+    bits depend only on the low bits of their arguments -- so that modular arithmetic written with
+    intermediate masks and modular arithmetic written with one final mask build the same term"""
+    global _LOWOPS
+    n = t.size()
+    if k == n: return t
+    assert 0 < k < n, (k, n)
+    key = (t.get_id(), k)
+    r = _low_cache.get(key)
+    if r is not None: return r[1]
+    if _LOWOPS is None:
+        _LOWOPS = {z3.Z3_OP_BADD, z3.Z3_OP_BSUB, z3.Z3_OP_BMUL, z3.Z3_OP_BNEG, z3.Z3_OP_BAND, z3.Z3_OP_BOR, z3.Z3_OP_BXOR, z3.Z3_OP_BNOT}
+    d = t.decl().kind()
+    if z3.is_bv_value(t):
+        r = z3.BitVecVal(t.as_long() & ((1 << k) - 1), k)
+    elif d in (z3.Z3_OP_ZERO_EXT, z3.Z3_OP_SIGN_EXT):
+        u = t.arg(0)
+        if k <= u.size(): r = low(u, k)
+        elif d == z3.Z3_OP_ZERO_EXT: r = z3.ZeroExt(k - u.size(), u)
+        else: r = z3.SignExt(k - u.size(), u)
+    elif d in _LOWOPS and not _lowerable(t, k):
+        r = extract(k - 1, 0, t)
+    elif d in _LOWOPS:
+        ch = [low(c, k) for c in t.children()]
+        if d == z3.Z3_OP_BADD:
+            r = ch[0]
+            for c in ch[1:]: r = r + c
+        elif d == z3.Z3_OP_BSUB:
+            r = ch[0]
+            for c in ch[1:]: r = r - c
+        elif d == z3.Z3_OP_BMUL:
+            r = ch[0]
+            for c in ch[1:]: r = r * c
+        elif d == z3.Z3_OP_BAND:
+            r = ch[0]
+            for c in ch[1:]: r = r & c
+        elif d == z3.Z3_OP_BOR:
+            r = ch[0]
+            for c in ch[1:]: r = r | c
+        elif d == z3.Z3_OP_BXOR:
+            r = ch[0]
+            for c in ch[1:]: r = r ^ c
+        elif d == z3.Z3_OP_BNEG: r = -ch[0]
+        else: r = ~ch[0]
+    elif d == z3.Z3_OP_CONCAT:
+        ch = t.children()
+        acc = []; have = 0
+        for c in reversed(ch):
+            if have >= k: break
+            need = k - have
+            if c.size() <= need: acc.append(c); have += c.size()
+            else: acc.append(low(c, need)); have += need
+        acc.reverse()
+        r = acc[0] if len(acc) == 1 else z3.Concat(*acc)
+    elif d == z3.Z3_OP_EXTRACT:
+        hi_, lo_ = t.params()
+        r = extract(lo_ + k - 1, lo_, t.arg(0))
+    elif d == z3.Z3_OP_ITE:
+        r = z3.If(t.arg(0), low(t.arg(1), k), low(t.arg(2), k))
+    else:
+        r = extract(k - 1, 0, t)
+    _low_cache[key] = (t, r)      # keep t alive so that its id is not reused
+    return r
+
+_lowerable_cache = {}
+def _lowerable(t, k):
+    """True when t is a cone of widened arithmetic over leaves of at most k bits (then taking the k low bits
+    just undoes the widening); False when it would duplicate a shared full-width computation at a narrower width"""
+    if t.size() <= k: return True
+    key = (t.get_id(), k)
+    r = _lowerable_cache.get(key)
+    if r is not None: return r[1]
+    d = t.decl().kind()
+    if d in (z3.Z3_OP_ZERO_EXT, z3.Z3_OP_SIGN_EXT): r = _lowerable(t.arg(0), k)
+    elif d in _LOWOPS: r = all(_lowerable(c, k) for c in t.children())
+    elif z3.is_bv_value(t): r = True
+    elif d in (z3.Z3_OP_CONCAT, z3.Z3_OP_EXTRACT): r = True      # taking low bits only selects parts, nothing is recomputed
+    elif d == z3.Z3_OP_ITE: r = _lowerable(t.arg(1), k) and _lowerable(t.arg(2), k)
+    else: r = False
+    _lowerable_cache[key] = (t, r)
+    return r
+
 def mk(t, lo, hi):
     """build result; collapse to python int when constant"""
     if lo == hi: return lo
     w, s = bits_for(lo, hi)
-    if t.size() > w: t = z3.Extract(w - 1, 0, t)
+    if t.size() > w: t = low(t, w)
     elif t.size() < w:
         raise AssertionError('narrow term')
     if z3.is_bv_value(t):
@@ -118,7 +244,7 @@ def uterm(x, w):
     if x.lo < 0 or x.hi >= (1 << w): raise EngineError('value does not fit %d bits: [%d,%d]' % (w, x.lo, x.hi))
     if x.w == w: return x.t
     if x.w < w: return z3.ZeroExt(w - x.w, x.t)
-    return z3.Extract(w - 1, 0, x.t)
+    return low(x.t, w)
 
 def from_term(t):
     """unsigned SymInt of a bit-vector term (full range)"""
@@ -136,19 +262,28 @@ def _arith(op):
     return f, r
 
 def _add(a, b):
+    f = _aff_combine(a, b, 1)
+    if f is not None and f[1] == 0: return f[2]
     lo, hi = a.lo + b.lo, a.hi + b.hi
     w, s = bits_for(lo, hi); w = max(w, a.w + 1, b.w + 1)
-    return mk(ext(a, w) + ext(b, w), lo, hi)
+    return _with_aff(mk(ext(a, w) + ext(b, w), lo, hi), f)
 def _sub(a, b):
+    f = _aff_combine(a, b, -1)
+    if f is not None and f[1] == 0: return f[2]
     lo, hi = a.lo - b.hi, a.hi - b.lo
     w, s = bits_for(lo, hi); w = max(w, a.w + 1, b.w + 1)
-    return mk(ext(a, w) - ext(b, w), lo, hi)
+    return _with_aff(mk(ext(a, w) - ext(b, w), lo, hi), f)
 def _mul(a, b):
     c = [a.lo * b.lo, a.lo * b.hi, a.hi * b.lo, a.hi * b.hi]
     lo, hi = min(c), max(c)
     if lo == hi: return lo
     w = a.w + b.w + 1
-    return mk(ext(a, w) * ext(b, w), lo, hi)
+    fa, fb = _aff(a), _aff(b)
+    f = None
+    if fa is not None and fb is not None:
+        if fa[0] is None: f = (fb[0], fb[1] * fa[2], fb[2] * fa[2])
+        elif fb[0] is None: f = (fa[0], fa[1] * fb[2], fa[2] * fb[2])
+    return _with_aff(mk(ext(a, w) * ext(b, w), lo, hi), f)
 def _and(a, b):
     if a.lo >= 0 and b.lo >= 0:
         hi = min(a.hi, b.hi)
@@ -158,12 +293,16 @@ def _and(a, b):
                 k = y.lo.bit_length()
                 if k == 0: return 0
                 if x.w <= k: return x
-                return mk(z3.Extract(k - 1, 0, x.t), 0, min(x.hi, y.lo))
+                return mk(low(x.t, k), 0, min(x.hi, y.lo))
         w = max(a.w, b.w)
         hi = (1 << min(a.w, b.w)) - 1 if hi >= (1 << min(a.w, b.w)) else hi
         return mk(ext(a, w) & ext(b, w), 0, hi)
     if a.lo >= 0 or b.lo >= 0:
         p = a if a.lo >= 0 else b
+        q = b if a.lo >= 0 else a
+        if p.lo == p.hi and (p.lo & (p.lo + 1)) == 0 and p.lo > 0:
+            k = p.lo.bit_length()
+            return mk(low(ext(q, max(q.w, k + 1)), k), 0, p.lo)
         w = max(a.w, b.w) + 1
         return mk(ext(a, w) & ext(b, w), 0, p.hi)
     w = max(a.w, b.w)
@@ -196,9 +335,7 @@ def _rshift(a, b):
         if k >= a.w:
             if not a.signed: return 0
             return mk(z3.SignExt(0, z3.Extract(a.w - 1, a.w - 1, a.t)), -1, 0 if a.hi >= 0 else -1)
-        if a.signed:
-            return mk(z3.Extract(a.w - 1, k, a.t), a.lo >> k, a.hi >> k)
-        return mk(z3.Extract(a.w - 1, k, a.t), a.lo >> k, a.hi >> k)
+        return mk(extract(a.w - 1, k, a.t), a.lo >> k, a.hi >> k)
     w = max(a.w, b.w)
     t = (ext(a, w) >> ext(b, w)) if a.signed else z3.LShR(ext(a, w), ext(b, w))
     c = [a.lo >> b.hi, a.lo >> b.lo, a.hi >> b.lo, a.hi >> b.hi]
@@ -211,7 +348,7 @@ def _mod(a, b):
         if k == 0: return 0
         if a.lo >= 0 and a.hi < m: return a
         w = max(a.w, k)
-        return mk(z3.Extract(k - 1, 0, ext(a, w)), 0, m - 1)
+        return mk(low(ext(a, w), k) if w > k else ext(a, w), 0, m - 1)
     if a.lo >= 0 and a.hi < m: return a
     w = max(a.w, b.w) + 1
     av = ext(a, w); bv = z3.BitVecVal(m, w)
